@@ -4,7 +4,8 @@
    dle on decimals (Go's Cmp is only *compatible* with it: C02_cmp_compatible). *)
 From DS Require Import Base Decimal StreamValue Sort Aggregators.
 From DS Require Import RankMedian DecimalProofs AggregatorProofs.
-From DS Require Outcome StepTheorems OutcomeAggRange NvHistory.
+From DS Require NvE2E.
+From DS Require Outcome StepTheorems OutcomeAggRange NvHistory OutcomeEndToEnd ObservationCodec PluginOutcomeBytes OutcomeCodec ReportsNoPanic.
 From stdpp Require gmap.
 
 (* numeric order is a total preorder; Go's Cmp agrees with it on numerically different values *)
@@ -99,6 +100,52 @@ Theorem C02_outcome_quote_in_honest_range : forall h cf seq prev (taos : list (o
                 (exists a b c, l = SQuote a b c /\ dle b bm) /\ (exists a b c, hh = SQuote a b c /\ dle bm b)).
 Proof. exact OutcomeAggRange.outcome_quote_in_honest_range. Qed.
 Print Assumptions C02_outcome_quote_in_honest_range.
+
+(* ---- end to end: from the correct nodes' data sources to the outcome ----
+   OutcomeEndToEnd: a correct node's observation is ObservationCodec.plugin_observation (the model of Plugin.Observation,
+   compared with the real function by the `observe` projection) of its inputs, marshalled by encode_observation in any
+   map order; the other senders send arbitrary bytes; `tagged` decodes every message as Plugin.Outcome does
+   (PluginOutcomeBytes.obs_of_bytes, compared with the real decoding on every round of the `history` projection). *)
+Theorem C02_llo_median_between_data_sources :
+  forall h check codec_ok cf seq prev_bytes (ss : list (OutcomeEndToEnd.lsender)) prev next sid d T,
+  ReportsNoPanic.bok prev_bytes -> OutcomeEndToEnd.lsenders_ok codec_ok cf seq prev_bytes ss -> 1 < seq ->
+  Outcome.outcome_step h cf seq prev (map fst (OutcomeEndToEnd.tagged check codec_ok cf seq prev_bytes ss)) = Ok next ->
+  base.lookup (sid, 1) (Outcome.o_aggs next) = Some (SDec d) ->
+  (T = 0 \/ T = 1) -> honest_type T (OutcomeAggRange.accepted_vals (OutcomeEndToEnd.tagged check codec_ok cf seq prev_bytes ss) sid) ->
+  (fpres (OutcomeAggRange.accepted_vals (OutcomeEndToEnd.tagged check codec_ok cf seq prev_bytes ss) sid) <
+   hpres (OutcomeAggRange.accepted_vals (OutcomeEndToEnd.tagged check codec_ok cf seq prev_bytes ss) sid))%nat ->
+  exists i1 i2 x1 x2 lo hi,
+    (exists rms ups vals, In (OutcomeEndToEnd.LCorrect i1 rms ups vals) ss) /\ (exists rms ups vals, In (OutcomeEndToEnd.LCorrect i2 rms ups vals) ss) /\
+    base.lookup sid (OutcomeEndToEnd.oi_vals i1) = Some x1 /\ base.lookup sid (OutcomeEndToEnd.oi_vals i2) = Some x2 /\
+    In lo (num_of x1) /\ In hi (num_of x2) /\ dle lo d /\ dle d hi.
+Proof. exact OutcomeEndToEnd.llo_median_between_data_sources. Qed.
+Print Assumptions C02_llo_median_between_data_sources.
+
+Theorem C02_llo_timestamp_between_clocks :
+  forall h check codec_ok cf seq prev_bytes (ss : list (OutcomeEndToEnd.lsender)) prev next,
+  ReportsNoPanic.bok prev_bytes -> OutcomeEndToEnd.lsenders_ok codec_ok cf seq prev_bytes ss -> 1 < seq ->
+  Outcome.outcome_step h cf seq prev (map fst (OutcomeEndToEnd.tagged check codec_ok cf seq prev_bytes ss)) = Ok next ->
+  (faulty_count (StepTheorems.accepted_ts (OutcomeEndToEnd.tagged check codec_ok cf seq prev_bytes ss)) <
+   honest_count (StepTheorems.accepted_ts (OutcomeEndToEnd.tagged check codec_ok cf seq prev_bytes ss)))%nat ->
+  exists i1 i2, (exists rms ups vals, In (OutcomeEndToEnd.LCorrect i1 rms ups vals) ss) /\
+                (exists rms ups vals, In (OutcomeEndToEnd.LCorrect i2 rms ups vals) ss) /\
+                OutcomeEndToEnd.oi_now i1 <= Outcome.o_ts next <= OutcomeEndToEnd.oi_now i2.
+Proof. exact OutcomeEndToEnd.llo_timestamp_between_clocks. Qed.
+Print Assumptions C02_llo_timestamp_between_clocks.
+
+(* non-vacuity, end to end (props/NvE2E.v): previous outcome bytes, three correct nodes whose data sources return 10, 12,
+   11 for stream 3 and one sender claiming 10^30: every hypothesis of the two theorems above holds and the outcome
+   commits 12 *)
+Example C02_nv_end_to_end :
+  ReportsNoPanic.bok NvE2E.e_prev_bytes /\
+  OutcomeEndToEnd.lsenders_ok (fun _ => true) NvHistory.nv_cf 3 NvE2E.e_prev_bytes NvE2E.e_ss /\
+  match Outcome.outcome_step NvHistory.nv_h NvHistory.nv_cf 3 NvHistory.p2 (map fst NvE2E.e_tagged) with
+  | Ok next => base.lookup (3, 1) (Outcome.o_aggs next) = Some (SDec (mkdec 12 0))
+  | _ => False end /\
+  honest_type 0 (OutcomeAggRange.accepted_vals NvE2E.e_tagged 3) /\
+  (fpres (OutcomeAggRange.accepted_vals NvE2E.e_tagged 3) < hpres (OutcomeAggRange.accepted_vals NvE2E.e_tagged 3))%nat /\
+  (faulty_count (StepTheorems.accepted_ts NvE2E.e_tagged) < honest_count (StepTheorems.accepted_ts NvE2E.e_tagged))%nat.
+Proof. exact NvE2E.e_round. Qed.
 
 (* non-vacuity at the outcome level: predecessor NvHistory.p2 defines channel 7 over (stream 3, median); three correct
    observers report 10, 12, 11 and a faulty one 10^30; the new outcome holds 12 for (3, median) *)
